@@ -33,6 +33,8 @@ def run(ck, tier):
     _acc2.run2(ck, F, 'C07')
     from . import relations as _rel
     _rel.run(ck, F, 'C07')
+    from . import guards as _grd
+    _grd.run(ck, F, 'C07')
     from . import c07x
     c07x.run(ck, F)
     c07x.run_exact_polarity(ck, F)
